@@ -35,7 +35,7 @@ CFG = {
             "assignment of a script (complete | abort | abort-then-ready | ready-then-abort | drop-handle-then-ready | never) to each "
             "dispatch x every interleaving of the scripts' events x four polling modes (each event processed at once; nothing polled "
             "until the end FIFO with races to the abort arm; LIFO with races to the future's arm; tasks parked first then races to the "
-            "future's arm), `clear` at every position for 1-2 dispatches, the analogous enumeration for multi-actions (cancel / "
+            "future's arm), 4 overlapping dispatches with complete|abort scripts in every order and mode, `clear` at every position for 1-2 dispatches, the analogous enumeration for multi-actions (cancel / "
             "dispatch_sync) - rotating over ArcAction/Action x dispatch/dispatch_local/new_unsync and ArcMultiAction/MultiAction; "
             "then n seeded random histories (up to 8 dispatches, up to 4 overlapping). The whole scope is not declared exhaustive "
             "because the random part is sampled. distinct = distinct op sequence; non-trivial = the case has at least one tag other "
